@@ -2,9 +2,12 @@
 EXTENDS Ods
 SmallChars == {"a", "sp", "nl"}
 AllChars == {"a", "b", "sp", "tab", "nl", "lt", "e9"}
-AllFeatures == SUBSET {"colruns", "rowruns", "selems", "spans", "paras", "notes"}
-SomeFeatures == {{}, {"colruns"}, {"rowruns"}, {"selems"}, {"spans"}, {"paras"}, {"notes"},
-                 {"colruns", "rowruns", "selems", "spans", "paras", "notes"}}
+\* ("notes", "rowgroups" and "merged" do not interact with how text is written: they are combined with the others in
+\* SomeFeatures and StructureFeatures only)
+AllFeatures == SUBSET {"colruns", "rowruns", "selems", "spans", "paras"}
+StructureFeatures == {s \cup t : s \in SUBSET {"notes", "rowgroups", "merged"}, t \in {{}, {"colruns"}, {"colruns", "rowruns", "spans"}}}
+SomeFeatures == {{}, {"colruns"}, {"rowruns"}, {"selems"}, {"spans"}, {"paras"}, {"notes"}, {"rowgroups"}, {"merged"},
+                 {"colruns", "rowruns", "selems", "spans", "paras", "notes", "rowgroups", "merged"}}
 NoRowRuns == {f \in AllFeatures : "rowruns" \notin f}
 OneSheet == {<<1, 1>>}
 AllSheets == {<<n, k>> : n \in 0..3, k \in 1..4}          \* (a document may hold no sheet at all)
